@@ -179,6 +179,15 @@ Definition post_fac (real_ax : axis) (sh : bool) (half : bool) (sg : T) (divide 
   let ker := kernel (stride real_ax) (freq n (a_n r1) sh k) in
   if divide then cdivr ph ker else cscal ker ph.
 
+(* interp='linear': the kernel is sinc^2 (FourierTransform itself always uses 'nearest') *)
+Definition kernel_lin (s f : T) : T := sinc f * sinc f / sq2pi * s.
+Definition post_fac_lin (real_ax : axis) (sh : bool) (half : bool) (sg : T) (divide : bool) (k : nat) : cx :=
+  let n := a_n real_ax in
+  let r1 := recip_axis none_ real_ax (Some sh) half in
+  let ph := cispi (sg * a_min real_ax * coord r1 k) in
+  let ker := kernel_lin (stride real_ax) (freq n (a_n r1) sh k) in
+  if divide then cdivr ph ker else cscal ker ph.
+
 (* table of twiddles exp(sg * 2 pi i m / n), m < n, looked up modulo n *)
 Definition tw_tab (sg : T) (n : nat) : nat -> cx :=
   let tab := map (fun m => cispi (sg * of_Z 2 * of_nat m / of_nat n)) (seq 0 n) in
